@@ -90,9 +90,9 @@ def e2e_cases(run):
     bodies = [("b1", 40, 0, 0, 1), ("b2", 40, 0, 0, 1), ("b1", 33, 0, 1, 1), ("b2", 48, 0, 1, 0)]
     lines += gen_block.e2e_sched_exhaustive(r, ".x2", 5 if quick else 8, bodies[:2])
     lines += gen_block.e2e_sched_exhaustive(r, ".xrh", 4 if quick else 6, bodies[2:])
-    lines += gen_block.e2e_sched_random(r, 3000 if quick else 30000)
-    lines += gen_block.e2e_two_uploads(r, 500 if quick else 8000)
-    lines += gen_block.e2e_slow(r, 60 if quick else 1500)
+    lines += gen_block.e2e_sched_random(r, 6000 if quick else 30000)
+    lines += gen_block.e2e_two_uploads(r, 800 if quick else 8000)
+    lines += gen_block.e2e_slow(r, 120 if quick else 1500)
     return lines
 
 
@@ -205,10 +205,10 @@ def peer(run, model):
             cases.append((l, "blkpeer %s %s %s %s %s" % (t[1], t[2], t[3], "0" if t[4] == "7" else t[4],
                                                         " ".join(t[6:]))))
     ncons = len(cases)
-    cases += gen_block.peer_cases(r, 2000 if quick else 20000, 0.0)
+    cases += gen_block.peer_cases(r, 3000 if quick else 20000, 0.0)
     ncons = len(cases)            # up to here the peer is honest: the oracle applies
-    cases += gen_block.peer_cases(r, 2500 if quick else 30000, 0.35)
-    cases += gen_block.peer_cases(r, 1000 if quick else 10000, 0.7)
+    cases += gen_block.peer_cases(r, 4000 if quick else 30000, 0.35)
+    cases += gen_block.peer_cases(r, 2000 if quick else 10000, 0.7)
     mo, _ = vlib.run_lines_robust(model, [m for d, m in cases], timeout=1500)
     co, crashes = vlib.run_lines_robust(drv, [d for d, m in cases], timeout=1500)
     run.cov["peer_driver_crashes"] = len(crashes)
